@@ -42,7 +42,7 @@ EXOTIC = ('\x0b', '\x0c', '\x1c', '\x1d', '\x1e', '\x85', '\u2028', '\u2029')
 
 def cases(ctx):
     q = ctx.tier == 'quick'
-    n = 150 if q else 4000
+    n = 120 if q else 4000
     for i in range(n):
         if not ctx.time_left():
             break
@@ -105,7 +105,16 @@ def oracle(ctx, kind, p):
                     def via_handle():
                         with open(path, encoding='utf-8') as fh:
                             return penman.load(fh, model=model)
+                    import pathlib
+
+                    def via_iter_handle():
+                        with open(path, encoding='utf-8') as fh:
+                            return list(penman.iterdecode(fh, model=model))
                     containers = [
+                        ('Path', lambda: penman.load(pathlib.Path(path), model=model, encoding='utf-8')),
+                        ('generator-of-lines', lambda: list(penman.iterdecode((ln for ln in lines), model=model))),
+                        ('iterdecode(filehandle)', via_iter_handle),
+                        ('codec.iterdecode', lambda: list(penman.PENMANCodec(model=model).iterdecode(text))),
                         ('str', lambda: penman.loads(text, model=model)),
                         ('iterdecode(str)', lambda: list(penman.iterdecode(text, model=model))),
                         ('lines', lambda: list(penman.iterdecode(lines, model=model))),
@@ -131,8 +140,10 @@ def oracle(ctx, kind, p):
                                              'text': text[:500], 'difference': which, 'model': mname})
                 # dump to a file name / handle vs dumps
                 outp = os.path.join(tmpdir, 'out.txt')
-                ok, _ = ctx.call(penman.dump, gs, outp, model=model, indent=indent, encoding='utf-8',
-                                 clause='dump(name)')
+                import pathlib
+                target = pathlib.Path(outp) if p['i'] % 2 else outp
+                ok, _ = ctx.call(penman.dump, (g for g in gs) if p['i'] % 3 == 0 else gs, target, model=model,
+                                 indent=indent, encoding='utf-8', clause='dump(name)')
                 if ok:
                     with open(outp, encoding='utf-8', newline='') as fh:
                         raw = fh.read()
